@@ -155,11 +155,17 @@ def parse (g : G) : Nat → P → Sk → List Nat → Option Res
     | some (.ok v r) => some (.ok v r)
     | some (.err ft) => some (.err ft)
   | f+1, .ref i, sk, inp => parse g f (g.rules i) sk inp
+  | f+1, .map m a, sk, inp =>
+    match parse g f a sk inp with
+    | none => none
+    | some (.ok v r) => some (.ok (m.apply v) r)
+    | some (.err ft) => some (.err ft)
   | f+1, .plus a, sk, inp => sugar (.plus a) (parse g f (desugar (.plus a)) sk inp)
   | f+1, .sep a b, sk, inp => sugar (.sep a b) (parse g f (desugar (.sep a b)) sk inp)
   | f+1, .list o a b c, sk, inp => sugar (.list o a b c) (parse g f (desugar (.list o a b c)) sk inp)
   | f+1, .uint m, sk, inp => sugar (.uint m) (parse g f (desugar (.uint m)) sk inp)
   | f+1, .int m, sk, inp => sugar (.int m) (parse g f (desugar (.int m)) sk inp)
+  | f+1, .float, sk, inp => sugar .float (parse g f (desugar .float) sk inp)
 
 /-- the string entry points: skipper first, then the parser, success iff nothing is left -/
 def parseString (g : G) (f : Nat) (p : P) (sk : Sk) (s : List Nat) : Option Top :=
@@ -192,7 +198,7 @@ inductive SkDerives : Sk → List Nat → SkRes → Prop where
 
 /-- the derived combinators: which ones they are -/
 def IsSugar : P → Prop
-  | .plus _ | .sep _ _ | .list _ _ _ _ | .uint _ | .int _ => True
+  | .plus _ | .sep _ _ | .list _ _ _ _ | .uint _ | .int _ | .float => True
   | _ => False
 
 /-- result of a derived combinator from the result of the composite parser it stands for -/
@@ -268,6 +274,9 @@ inductive Derives (g : G) : P → Sk → List Nat → Res → Prop where
   /-- `named` replaces the error message; the fatal flag is kept (named_impl.hpp after af6c285) -/
   | namedErr {a sk inp ft} : Derives g a sk inp (.err ft) → Derives g (.named a) sk inp (.err ft)
   | ref {i sk inp x} : Derives g (g.rules i) sk inp x → Derives g (.ref i) sk inp x
+  /-- `construct` / `as_struct` / `convert_const`: the success value is replaced, errors remain unchanged -/
+  | mapOk {m a sk inp v r} : Derives g a sk inp (.ok v r) → Derives g (.map m a) sk inp (.ok (m.apply v) r)
+  | mapErr {m a sk inp ft} : Derives g a sk inp (.err ft) → Derives g (.map m a) sk inp (.err ft)
   /-- `+p`, `separator`, `list`, `uint`, `int_` are *defined* as composite parsers -/
   | sugar {p sk inp x} : IsSugar p → Derives g (desugar p) sk inp x → Derives g p sk inp (postRes p x)
 
@@ -287,12 +296,12 @@ def nullable : P → Bool
   | .alt a b => nullable a || nullable b
   | .rep _ => true | .opt _ => true | .not _ => true
   | .fatal a => nullable a | .lexeme a => nullable a | .conv _ a => nullable a | .convIf _ a => nullable a
-  | .ignore a => nullable a | .named a => nullable a
+  | .ignore a => nullable a | .named a => nullable a | .map _ a => nullable a
   | .ref _ => true
   | .plus a => nullable a
   | .sep _ _ => true
   | .list o _ _ c => nullable o && nullable c
-  | .uint _ => false | .int _ => false
+  | .uint _ => false | .int _ => false | .float => false
 
 def skNullable : Sk → Bool
   | .eps => true | .cset _ => false | .lit _ => false | .rep _ => true
@@ -315,7 +324,7 @@ def WF0 : P → Prop
   | .sep a s => WF0 a ∧ WF0 s ∧ (nullable s && nullable a) = false
   | .list o a s c => WF0 o ∧ WF0 a ∧ WF0 s ∧ WF0 c ∧ (nullable s && nullable a) = false
   | .opt a => WF0 a | .not a => WF0 a | .fatal a => WF0 a | .lexeme a => WF0 a
-  | .conv _ a => WF0 a | .convIf _ a => WF0 a | .ignore a => WF0 a | .named a => WF0 a
+  | .conv _ a => WF0 a | .convIf _ a => WF0 a | .ignore a => WF0 a | .named a => WF0 a | .map _ a => WF0 a
   | _ => True
 
 /-- well-formed **possibly recursive** parser (Ford's WF with an explicit ranking): `WFr rk K p k` says that `p` may
@@ -332,6 +341,7 @@ def WFr (rk : Nat → Nat) (K : Nat) : P → Nat → Prop
   | .list o a s c, k => WFr rk K o k ∧ WFr rk K a k ∧ WFr rk K s k ∧ WFr rk K c k ∧ (nullable s && nullable a) = false
   | .opt a, k => WFr rk K a k | .not a, k => WFr rk K a k | .fatal a, k => WFr rk K a k | .lexeme a, k => WFr rk K a k
   | .conv _ a, k => WFr rk K a k | .convIf _ a, k => WFr rk K a k | .ignore a, k => WFr rk K a k | .named a, k => WFr rk K a k
+  | .map _ a, k => WFr rk K a k
   | _, _ => True
 
 /-- a well-formed grammar: some ranking of the rules, bounded by `K`, under which every rule body is well-formed at
